@@ -252,6 +252,26 @@ def run(ctx):
     rule_no_static_state(ctx, "R16.6", lambda f: f.file.endswith(("lang/hash.hpp", "lang/tuple_operators.hpp", "lang/unordered.hpp")),
                          "equal values hash differently in different threads / runs of the function, so a container filled by one thread misses every key when queried by another", minimum=6)
     ctx.rule("R16.7", "a std fold on the hashing path starts from a std::size_t: the accumulator has the start value's type, an int start cuts every intermediate seed to 32 bits (and the boost-style combine shifts/adds a negative int)")
+    # ---- R16.8: a component is hashed in its own type. An explicit cast of (something computed from) a hash() parameter into a fixed arithmetic
+    # type cuts the component: an enumeration with a 64-bit underlying type forced through int loses every bit from 32 upwards
+    ctx.rule("R16.8", "no hash() overload casts its argument into a fixed arithmetic type before hashing it (the hash depends on the whole component)")
+    ARITH = re.compile(r"^(const )?(bool|char|signed char|unsigned char|short|unsigned short|int|unsigned int|unsigned|long|unsigned long|long long|unsigned long long|float|double|long double|std::u?int\d+_t|u?int\d+_t)$")
+    ncast = 0
+    seen_h = set()
+    for f in sorted(prog.fns.values(), key=lambda g: g.id):
+        if not (f.has_cfg and f.file.endswith(HPP) and f.is_pattern and f.qual == "nitro::lang::hash" and f.params) or (f.file, f.line) in seen_h:
+            continue
+        seen_h.add((f.file, f.line))
+        pnames = {p0.get("name") for p0 in f.params}
+        for _, _, e in f.roots():
+            for n in walk(e["expr"]):
+                if isinstance(n, dict) and n.get("k") == "cast" and n.get("ck") in ("static", "c", "functional", "reinterpret") and ARITH.match((n.get("to") or n.get("type") or "").strip()):
+                    if any(isinstance(m, dict) and m.get("k") == "ref" and str(m.get("decl", "")).split(":", 1)[-1] in pnames for m in walk(n.get("e") or {})):
+                        ncast += 1
+                        ctx.bad("R16.8", f, "component-cast:%s" % fmt(n)[:50], "%s hashes `%s`: the component is converted to %s first - values that differ only in what that type cannot hold "
+                                "hash alike (systematic collisions), the hash no longer depends on the whole component" % (f.id[:80], fmt(n)[:60], n.get("to") or n.get("type")), (f, n.get("ln")))
+    ctx.ok("R16.8", "-", "no-component-cast:scanned", "%d hash overload pattern(s)" % len(seen_h), "-")
+    ctx.need("R16.8", "hash overload patterns", len(seen_h), 6)
     from .common import rule_fold_keeps_width
     rule_fold_keeps_width(ctx, "R16.7", lambda f: f.file.endswith(("lang/hash.hpp", "lang/tuple_operators.hpp")),
                           "tuples that differ in a leading component only hash alike far more often than std::size_t allows, and on a platform where the cut value is "
